@@ -23,7 +23,7 @@ def demoSwitch : Program :=
     inputKw := [] }
 
 theorem demoSwitch_swP : SwP demoSwitch := by
-  refine ⟨fun _ => ?_, fun _ => ?_, ?_, fun _ _ => ⟨rfl, rfl⟩, by decide⟩
+  refine ⟨fun _ => ?_, fun _ => ?_, ?_, fun _ _ => ⟨rfl, rfl⟩, by decide, by decide, by decide, by decide⟩
   · simp only [demoSwitch, Graph.isOneofHead]; split <;> rfl
   · simp only [demoSwitch]; split <;> rfl
   · intro n kw i k v h
@@ -74,5 +74,31 @@ theorem demoSwVal_solution : SolutionSw demoSwitch demoSwVal := by
       split at hn
       · next h4 => rw [h4] at h5; exact h5 (by decide)
       · cases hn
+
+/-- what the demo pipeline needs: everything but the non-selected case `3` -/
+theorem demoSwitch_demanded : ∀ n, Demanded demoSwitch demoSwVal n → n ∈ [5, 4, 0, 1, 2] := by
+  intro n h
+  induction h with
+  | out => decide
+  | @pred n p _ hns hp ih =>
+    have key : ∀ n ∈ [5, 4, 0, 1, 2], demoSwitch.g.isSwitch n = false → ∀ p ∈ demoSwitch.g.preds n, p ∈ [5, 4, 0, 1, 2] := by
+      decide
+    exact key n ih hns p hp
+  | @decider S e _ hS he hv hsw ih =>
+    have key : ∀ e ∈ demoSwitch.g.edges, e.isSwitch = true → e.u ∈ [5, 4, 0, 1, 2] := by decide
+    exact key e he hsw
+  | @case S c _ hS hsel ih =>
+    have key : ∀ S ∈ [5, 4, 0, 1, 2], demoSwitch.g.isSwitch S = true → ∀ c, swSel demoSwitch demoSwVal S = some c →
+        c ∈ [5, 4, 0, 1, 2] := by
+      intro S hS' hsw c hc
+      have h4 : S = 4 := by
+        simp only [List.mem_cons, List.not_mem_nil, or_false] at hS'
+        rcases hS' with rfl | rfl | rfl | rfl | rfl <;> first | rfl | (exact absurd hsw (by decide))
+      subst h4
+      have : swSel demoSwitch demoSwVal 4 = some 2 := by decide
+      rw [this] at hc
+      cases hc
+      decide
+    exact key S ih hS c hsel
 
 end MLPE.Eng
